@@ -29,12 +29,14 @@ from vlib import f2b, fs2b, b2f, b2fs, ints
 from props import c01
 
 ID = "C08"
-GEN = ["Combinators", "ArrCombinators", "Leaves", "Misc", "Dist"]
+GEN = ["Combinators", "ArrCombinators", "Leaves", "Misc", "Dist", "Params", "Flows"]
 RULE = ("random expression trees of array bijections (elementwise leaves with per-element non-default parameters, Chain, Invert, "
         "Concatenate and Stack along every valid axis incl. negative, Partial with int/slice/int-array/bool-array/tuple indices, Reshape, "
         "EmbedCondition, Scan, Vmap with mapped or broadcast parameters and mapped/broadcast condition), ranks 0-3, conditional and "
         "unconditional children mixed; all four methods; non-trivial = tree contains at least one combinator and non-default parameters; "
-        "distinct = distinct (tree, method, input)")
+        "distinct = distinct (tree, method, input); premade flows: the Scan / Invert(Scan) of real factory-built coupling / MAF / planar flows "
+        "(dims 1-5, 1-4 layers, heterogeneous perturbed layers, each with its own permutation) and of hand-stacked BNAF stacks against the generated "
+        "factory bodies = generated Chain of the unstacked layers (both log-det methods), _add_default_permute branch structure, _affine_with_min_scale")
 TRUSTED = c01.TRUSTED + [
     "Model/Arr.lean: three-level (O,A,I) view of row-major data for axis operations, gather/scatter for Partial (hand model, validated here against jnp)",
     "Model/ArrJnp.lean: specs of jnp.array_split / split / squeeze / concatenate / stack / reshape / x[idxs] / .at[idxs].set, zip(strict=True), zip(*), sum, accumulate, range(n)[i] that the generated bodies call (total; guards stated in the theorems; validated here against jnp directly and through the trees)",
@@ -378,6 +380,11 @@ def corr(c, tier, rng, n_trees=None):
         # merge_transforms on nested Transformed (1-3 levels): the generated model of the nest vs the real merged object
         c03.corr_nested(c, tier, rng, n=20 if tier == "quick" else 120)
         prim_correspondence(c, tier, rng)
+        # the Scan inside every premade flow: the generated factory bodies (Scan = generated Chain of the UNSTACKED layers, each with
+        # its own parameters and permutation) against the real Scan / Invert(Scan) of real factory-built flows, both log-det methods
+        from props import flows
+        # (quick tier: the hand-stacked BNAF Scans are run under C01 only; the thorough tier runs them here as well)
+        flows.corr_flows(c, tier, rng, parts=("helpers", "factories") if tier == "quick" else ("helpers", "factories", "bnaf"), methods=("tl", "il"))
     outs = vlib.run_model(lines)
     for line, got, want, info in zip(lines, outs, wants, infos):
         gen = line.startswith("atree ")
@@ -474,6 +481,10 @@ def oracle_violations(node, rng):
 
 def search(hints, tier, rng):
     wit = []
+    from props import flows
+    wit += flows.search_flows(tier, rng)      # structure of factory-built flows, Scan vs Chain of its unstacked layers
+    if len(wit) >= 5:
+        return wit[:5]
     # merge_transforms on 2-3 levels of nesting never changes log_prob / sample (shared with C03)
     from props import c03
     wit += [dict(w, key="merge_transforms|" + w["key"]) for w in c03.nested_merge_violations(tier, rng) if "merge" in w.get("key", "")]
